@@ -96,7 +96,10 @@ pub fn owners(code: &str) -> Option<&'static [&'static str]> {
         "max_connections_exceeded" | "connect_refused" | "connack_not_success" => &["C19", "C14", "C03"],
         "late_event_hit_live_connection" => &["C14"],
         // retained messages
-        "retained_flag_unexpected" | "retained_replay" => &["C15"],
+        "retained_flag_unexpected" => &["C15"],
+        // (C16: the will is published "retain as registered", so a later subscriber is owed
+        // it — in the C16 plans only wills carry the retain flag)
+        "retained_replay" => &["C15", "C16"],
         // shared subscriptions
         "shared_spurious" | "shared_duplicate" | "shared_order" | "shared_undelivered" | "shared_group_after_persistent_member_left" => &["C17"],
         // protocol versions
